@@ -232,3 +232,48 @@ func VerifC06GenerateNative() {
 	}
 	v.Assert("C06.code-equal", same)
 }
+
+// verifC06Graph: a flattened graph whose index depends on the order in which the members of a
+// class are visited if that order is not the document's: an element with lexical entries in two
+// source maps (different ranges) and two source-information nodes (different root locations).
+func verifC06Graph(twoMaps, twoInfos bool) any {
+	nodes := []any{
+		verifObj("@id", "http://x/n1", "@type", []any{"http://example.org/C", "http://example.org/D"}),
+		verifObj("@id", "http://x/n2", "@type", "http://example.org/C"),
+		verifObj("@id", "http://x/lexA", smNS+"element", "http://x/n1", smNS+"value", "[(1,1)-(2,2)]"),
+		verifObj("@id", "http://x/lexB", smNS+"element", "http://x/n1", smNS+"value", "[(7,7)-(8,8)]"),
+		verifObj("@id", "http://x/lexC", smNS+"element", "http://x/n2", smNS+"value", "[(3,3)-(4,4)]"),
+		verifObj("@id", "http://x/sm1", "@type", smNS+"SourceMap", smNS+"lexical", []any{verifObj("@id", "http://x/lexA"), verifObj("@id", "http://x/lexC")}),
+		verifObj("@id", "http://x/si1", "@type", docNS+"BaseUnitSourceInformation", docNS+"rootLocation", "file://root1"),
+	}
+	if twoMaps {
+		nodes = append(nodes, verifObj("@id", "http://x/sm2", "@type", smNS+"SourceMap", smNS+"lexical", verifObj("@id", "http://x/lexB")))
+	}
+	if twoInfos {
+		nodes = append(nodes, verifObj("@id", "http://x/si2", "@type", docNS+"BaseUnitSourceInformation", docNS+"rootLocation", "file://root2"))
+	}
+	return verifObj("@graph", nodes)
+}
+
+// VerifC06Index: the input index (what the policy sees of the data) is the same for every map
+// iteration order.
+func VerifC06Index() {
+	twoMaps, twoInfos := v.Choice("twoSourceMaps", 2) == 1, v.Choice("twoSourceInfos", 2) == 1
+	i1 := Encode(Index(verifC06Graph(twoMaps, twoInfos)))
+	v.MapOrder(true)
+	i2 := Encode(Index(verifC06Graph(twoMaps, twoInfos)))
+	v.MapOrder(false)
+	v.Reach("indexed-twice")
+	v.Assert("C06.index-equal", i1 == i2)
+}
+
+// VerifC06IndexNative: natively the order is the runtime's choice: index repeatedly and compare.
+func VerifC06IndexNative() {
+	twoMaps, twoInfos := v.ReplayInt("twoSourceMaps") == 1, v.ReplayInt("twoSourceInfos") == 1
+	first := Encode(Index(verifC06Graph(twoMaps, twoInfos)))
+	same := true
+	for i := 0; i < 2000 && same; i++ {
+		same = Encode(Index(verifC06Graph(twoMaps, twoInfos))) == first
+	}
+	v.Assert("C06.index-equal", same)
+}
